@@ -45,29 +45,75 @@ where
 }
 
 // ------------------------------------------------------------------ fixed-point tables (C03 / C19 / C20)
+/// tiling part of `Valid` (no quantile lookup)
+fn check_tiling<M, const P: usize>(m: &M, n: usize, big: usize)
+where
+    M: EncoderModel<P, Symbol = usize, Probability = u8>,
+{
+    let total: u16 = 1 << P;
+    assert!(n >= 2);
+    let mut acc: u16 = 0;
+    let mut i = 0;
+    while i < n {
+        let (c, p) = match m.left_cumulative_and_probability(i) {
+            Some(x) => x,
+            None => {
+                assert!(false);
+                return;
+            }
+        };
+        assert!(c as u16 == acc);
+        assert!(p.get() != 0 && (p.get() as u16) < total);
+        acc += p.get() as u16;
+        i += 1;
+    }
+    assert!(acc == total);
+    assert!(m.left_cumulative_and_probability(n).is_none());
+    assert!(big < n || m.left_cumulative_and_probability(big).is_none());
+}
+
 macro_rules! fixed_contiguous {
-    ($name:ident, $P:expr) => {
+    ($name:ident, $qname:ident, $P:expr) => {
         harness!($name, unwind = 7, |s| {
             let probs: [u8; 3] = s.arr_u8::<3>();
             let n = s.usize();
             s.assume(n <= 3);
             let infer = s.bool();
-            let q = s.u8();
             let big = s.usize();
             let r = ContiguousCategoricalEntropyModel::<u8, Vec<u8>, $P>::from_nonzero_fixed_point_probabilities(&probs[..n], infer);
             if let Ok(m) = r {
                 let k = m.support_size();
                 assert!(k == n + infer as usize);
-                check_valid::<_, $P>(&m, k, q, big);
+                check_tiling::<_, $P>(&m, k, big);
                 vcover!(infer);
                 vcover!(!infer && n == 3);
                 core::mem::forget(m);
             }
         });
+        harness!($qname, unwind = 7, |s| {
+            let probs: [u8; 3] = s.arr_u8::<3>();
+            let n = s.usize();
+            s.assume(n <= 3);
+            let infer = s.bool();
+            let q = s.u8();
+            let total: u16 = 1 << $P;
+            s.assume((q as u16) < total);
+            let r = ContiguousCategoricalEntropyModel::<u8, Vec<u8>, $P>::from_nonzero_fixed_point_probabilities(&probs[..n], infer);
+            if let Ok(m) = r {
+                let k = m.support_size();
+                let (sy, c, p) = m.quantile_function(q);
+                assert!(sy < k);
+                assert!(c <= q && (q as u16) < c as u16 + p.get() as u16);
+                let (c2, p2) = m.left_cumulative_and_probability(sy).unwrap();
+                assert!(c2 == c && p2 == p);
+                vcover!(sy == 2);
+                core::mem::forget(m);
+            }
+        });
     };
 }
-fixed_contiguous!(fixed_contiguous_p8, 8);
-fixed_contiguous!(fixed_contiguous_p4, 4);
+fixed_contiguous!(fixed_contiguous_p8, fixed_contiguous_quantile_p8, 8);
+fixed_contiguous!(fixed_contiguous_p4, fixed_contiguous_quantile_p4, 4);
 
 // completeness: "inferring the last probability works at every precision"
 macro_rules! fixed_infer_complete {
@@ -144,7 +190,7 @@ macro_rules! fixed_lookup {
         harness!($name, unwind = 20, |s| {
             let probs: [u8; 3] = s.arr_u8::<3>();
             let n = s.usize();
-            s.assume(n <= 3);
+            s.assume(n >= 1 && n <= 2);
             let infer = s.bool();
             let q = s.u8();
             let total: u16 = 1 << $P;
@@ -395,7 +441,7 @@ harness!(quantizer_u8_p4_sup3, unwind = 12, |s| {
 });
 
 dispatch!(
-    fixed_contiguous_p8, fixed_contiguous_p4, fixed_infer_complete_p8, fixed_infer_complete_p4,
+    fixed_contiguous_p8, fixed_contiguous_p4, fixed_contiguous_quantile_p8, fixed_contiguous_quantile_p4, fixed_infer_complete_p8, fixed_infer_complete_p4,
     fixed_noncontig_p8, fixed_noncontig_p4, fixed_lookup_p4, fixed_lookup_p8,
     uniform_u8_p8, uniform_u8_p5, uniform_rejects, conversions_contiguous_p4,
     fast_f32_n3_p4_norm1, fast_f32_n2_p3_nonorm, fast_f32_n2_p3_anyinput, lazy_vs_eager_f32_n3_p4,
